@@ -389,6 +389,116 @@ def _arn_of(c):
     return ":".join([c["prefix"]] + list(c["fields"]))
 
 
+# ---- tag streams -------------------------------------------------------------------------------
+
+# values of the `message:action@date` shape the stream generator uses, with their parts (the oracle's table)
+MARKED_VALUES = {
+    "m:stop@2020-09-10": ("m", "stop", "2020-09-10"),
+    "idle 3 days:terminate@2021-01-02": ("idle 3 days", "terminate", "2021-01-02"),
+    "a:b:notify@2021-03-04": ("a:b", "notify", "2021-03-04"),
+}
+
+
+def run_tagseq(c: Dict[str, Any]) -> str:
+    """A filter is applied to a STREAM of resources: each step builds a tag list (a fresh object, as `json_to_cel` does per
+    resource), looks a few keys up in it with `key` / `marked_key`, and drops it before the next one is built - so a later
+    list may live at the address of an earlier one - or (step flag `mut`) rewrites the previous list object in place.
+    The answer of every lookup is reported; each must be the answer for the list AS IT IS at that moment."""
+    from celpy import celtypes
+    L = IMPL.lib()
+    S = celtypes.StringType
+    via = c.get("via", "py")
+    outs: List[str] = []
+    tags = None
+    for st in c["steps"]:
+        build = c.get("build", "cel")
+        if st.get("mut") and tags is not None:
+            tags[:] = cel_tags(st["tags"])                  # the same list object, new content
+        elif build == "json":
+            doc = [dict(t) for t in st["tags"]]
+            tags = None                                     # the previous resource is gone before this one is converted
+            tags = L.json_to_cel(doc)
+        else:
+            items = [celtypes.MapType({S(a): S(b) for a, b in t.items()}) for t in st["tags"]]
+            tags = None                                     # drop the previous list, then make the new list object at once
+            if build == "fill":
+                tags = celtypes.ListType()
+                tags.extend(items)
+            else:
+                tags = celtypes.ListType(items)
+        for fn, k in st["looks"]:
+            try:
+                if via == "py":
+                    v = getattr(L, fn)(tags, S(k))
+                else:
+                    src = f"tags.{fn}(k)" if c.get("style") == "method" else f"{fn}(tags, k)"
+                    v = IMPL.cel(src, via, {"tags": tags, "k": S(k)})
+                outs.append(celrun.canon(v))
+            except Exception as ex:
+                outs.append(("raise " + type(ex).__name__) if via == "py" else "error")
+    tags = None
+    return " ; ".join(outs) if outs else "-"
+
+
+def in_child(thunk) -> str:
+    """Run `thunk` in a forked child and return its string: a stream is a self-contained case, so whatever the library keeps
+    between calls at module level comes from THIS stream only (as in a replay, which starts a process of its own) and not
+    from the cases evaluated before it.  Falls back to the current process where `fork` is not available."""
+    import os
+    try:
+        r, w = os.pipe()
+        pid = os.fork()
+    except (AttributeError, OSError):
+        return thunk()
+    if pid == 0:
+        code = 1
+        try:
+            os.close(r)
+            try:
+                out = thunk()
+            except BaseException as ex:      # noqa: the child must never return into the harness
+                out = "HARNESS-EXC in child " + type(ex).__name__ + ": " + str(ex)
+            with os.fdopen(w, "wb") as fh:
+                fh.write(out.encode("utf-8", "surrogatepass"))
+            code = 0
+        finally:
+            os._exit(code)
+    os.close(w)
+    with os.fdopen(r, "rb") as fh:
+        data = fh.read()
+    _, status = os.waitpid(pid, 0)
+    if status != 0:
+        return thunk()
+    return data.decode("utf-8", "surrogatepass")
+
+
+def tagseq_line(c: Dict[str, Any]) -> Optional[str]:
+    toks = []
+    for st in c["steps"]:
+        for fn, k in st["looks"]:
+            toks += ["key" if fn == "key" else "mkey", enc_tags(st["tags"]), enc_str(k)]
+    return ("kseq " + " ".join(toks)) if toks else None
+
+
+def ref_lookup(fn: str, tags: List[Dict[str, str]], k: str) -> Optional[str]:
+    """the property's account of ONE lookup on well-formed tags (None: no claim)"""
+    if not all("Key" in t and "Value" in t for t in tags):
+        return None
+    val = None
+    for t in tags:
+        if t["Key"] == k:
+            val = t["Value"]
+            break
+    if fn == "key":
+        return "null" if val is None else "string:" + _jstr(val)
+    if val is None or ":" not in val:
+        return "null"
+    if val in MARKED_VALUES:
+        exp = marked_expected(*MARKED_VALUES[val])
+        return None if exp.startswith("raise ") else exp
+    return None
+
+
 # ---- context histories ---------------------------------------------------------------------------
 
 def hist_src(it: Dict[str, Any]) -> str:
@@ -515,8 +625,9 @@ class C17(Prop):
                "Python set semantics = duplicate-free list (hash collisions between IntType and StringType do not occur)",
                "CPython `with` statement semantics (enter / exit on every exit path)"]
     rule = ("per helper: exhaustive small scopes (list pairs over 4-symbol alphabets, patterns/texts over {a,b,*,?,[,],!} and a range alphabet, "
-            "every prefix length x structured addresses, dotted versions over {0,1,9,10,12}, tag lists with duplicate/missing keys, ARN shapes with "
-            "4..7 fields) + seeded random larger ones; each called directly and (a share) through CEL on both runners in function and method "
+            "every prefix length x structured addresses, dotted versions over {0,1,9,10,12}, tag lists with duplicate/missing keys (0..14 tags), "
+            "streams of 2..5 tag lists of 0..18 tags that are built, looked up (key/marked_key, directly and through CEL) and dropped or "
+            "rewritten in place one after the other, ARN shapes with 4..7 fields) + seeded random larger ones; each called directly and (a share) through CEL on both runners in function and method "
             "syntax; context histories: every ok/fail sequence up to length 6 with seeded styles plus seeded short ones; each history "
             "starts with runner objects of its own, re-evaluates the same program, and installs filter stand-ins that are different "
             "objects comparing equal (equality classes), the very same object again, or unequal ones. non-trivial = distinct case whose outcome is "
@@ -685,7 +796,7 @@ class C17(Prop):
         vals = ["v1", "v2", ""]
         for _ in range(1200 if quick else 15000):
             tags = []
-            for _ in range(rng.randint(0, 4)):
+            for _ in range(rng.randint(0, 4) if rng.random() < 0.85 else rng.randint(5, 14)):   # a few heavily tagged ones
                 t = {}
                 r = rng.random()
                 if r < 0.93:
@@ -729,6 +840,39 @@ class C17(Prop):
             for name in names:
                 for via in ("py", "I", "C"):
                     add({"kind": "arn", "prefix": "arn", "fields": fields, "field": name}, via)
+
+        # --- tag streams: one filter over many resources, each tag list built, used for a few lookups and dropped ---
+        streams: List[Dict[str, Any]] = []
+        interest = ["k", "j", "Name", "owner", "maid_status"]
+        plain = ["v1", "v2", "", "x"]
+        marked = list(MARKED_VALUES)
+
+        def tag_list(i: int) -> List[Dict[str, str]]:
+            r = rng.random()
+            n = rng.randint(0, 4) if r < 0.3 else rng.randint(5, 9) if r < 0.7 else rng.randint(10, 18)
+            tl = []
+            for j in range(n):
+                if rng.random() < 0.35:
+                    kk = rng.choice(interest)
+                else:
+                    kk = "t%d" % rng.randint(0, 12)
+                vv = rng.choice(marked) if rng.random() < 0.25 else rng.choice(plain + ["r%d" % i])
+                tl.append({"Key": kk, "Value": vv})
+            return tl
+        for _ in range(400 if quick else 6000):
+            nsteps = rng.randint(2, 5)
+            looks0 = [[rng.choice(["key", "key", "marked_key"]), rng.choice(interest)] for _ in range(rng.randint(1, 3))]
+            steps = []
+            for i in range(nsteps):
+                looks = looks0 if rng.random() < 0.7 else \
+                    [[rng.choice(["key", "marked_key"]), rng.choice(interest + ["t1"])] for _ in range(rng.randint(1, 3))]
+                st = {"tags": tag_list(i), "looks": [list(x) for x in looks]}
+                if i > 0 and rng.random() < 0.12:
+                    st["mut"] = True
+                steps.append(st)
+            streams.append({"kind": "tagseq", "steps": steps, "via": rng.choice(["py", "py", "py", "I", "C"]),
+                            "style": rng.choice(["fn", "method"]), "build": rng.choice(["cel", "cel", "fill", "json"])})
+        cases[:0] = streams      # first: a stream is self-contained, single lookups later on share the process with it
 
         # --- context histories ---
         def item(fail: bool, i: int, prev: Optional[Dict[str, Any]]) -> Dict[str, Any]:
@@ -798,6 +942,8 @@ class C17(Prop):
             finally:
                 import celpy.c7nlib as L
                 L.C7N = None
+        if k == "tagseq":
+            return in_child(lambda: run_tagseq(c))
         via = c.get("via", "py")
         direct, src_fn, src_m, act = call_spec(c)
         try:
@@ -838,11 +984,19 @@ class C17(Prop):
             return "arn " + enc_str(_arn_of(c)) + " " + enc_str(c["field"])
         if k == "ctx":
             return hist_tokens(c["hist"])
+        if k == "tagseq":
+            return tagseq_line(c)
         return None
 
     def model_expect(self, c, m):
         k = c["kind"]
         via = c.get("via", "py")
+        if k == "tagseq":
+            looks = [fn for st in c["steps"] for fn, _ in st["looks"]]
+            parts = m.split(" ; ")
+            if len(parts) != len(looks):
+                return m
+            return " ; ".join(self.model_expect({"kind": fn, "via": via}, p) for fn, p in zip(looks, parts))
         if m.startswith("raise "):
             return m if via == "py" else "error"
         if k == "set":
@@ -970,6 +1124,19 @@ class C17(Prop):
             if out != exp:
                 return f"arn_split({_arn_of(c)!r}, {c['field']!r}) via {c['via']} gave {out}; that field is {exp}"
             return None
+        if k == "tagseq":
+            outs = out.split(" ; ") if out != "-" else []
+            i = 0
+            for si, st in enumerate(c["steps"]):
+                for fn, kk in st["looks"]:
+                    exp = ref_lookup(fn, st["tags"], kk)
+                    got = outs[i] if i < len(outs) else "<missing>"
+                    i += 1
+                    if exp is not None and got != exp:
+                        return (f"stream of {len(c['steps'])} tag lists via {c['via']}: lookup #{i} (list {si + 1} of sizes "
+                                f"{[len(x['tags']) for x in c['steps']]}) {fn}({st['tags']!r}, {kk!r}) gave {got}; the first tag with "
+                                f"that Key of THIS list gives {exp}")
+            return None
         if k == "ctx":
             exp = hist_expected(c["hist"])
             if out != exp:
@@ -985,6 +1152,8 @@ class C17(Prop):
         k = c["kind"]
         if k == "ctx":
             return any(i["fail"] != "no" for i in c["hist"])
+        if k == "tagseq":
+            return any(o.startswith(("string:", "map")) for o in out.split(" ; ")) and len(c["steps"]) > 1
         if k == "set" and c["fn"] == "unique_size":
             return out not in ("int:0", "int:%d" % len(c["a"]))
         return out not in ("bool:false", "false", "null", "error") and not out.startswith("raise")
